@@ -135,4 +135,11 @@ func (c *Ctx) checkNoCloseAfterGo(rule string, rels ...string) {
 		}
 	}
 	L.OK(rule, "scope", fmt.Sprintf("packages %v", rels), "-", fmt.Sprintf("%d go statements examined, no Close follows one without a join", nGo))
+	if cp := c.Controls(); cp != nil {
+		n := 0
+		for _, fn := range cp.SrcFuncs() {
+			n += len(closesAfterGo(fn))
+		}
+		L.ControlMustFire(rule, n > 0, "controls.CloseAfterGo closes its input right after starting the reader goroutine")
+	}
 }
